@@ -321,6 +321,11 @@ def check(run):
         exclude = []
         if auto and k % 4 == 0 and disc:
             exclude = sorted(set([disc[int(r.integers(0, len(disc)))]] + [str(s) for s in r.choice(present, int(r.integers(0, 2)), replace=False)]))
+            # names that exclude nothing: a solvent without candidate files, a species given explicitly, a name listed twice
+            exclude += [x for x, p_ in (('SOL', 0.5), ('W', 0.3)) if r.random() < p_]
+            exclude += [e_ for e_ in explicit if r.random() < 0.5]
+            if r.random() < 0.3:
+                exclude.append(exclude[0])
         c['exclude'] = exclude
         disc, mapped = expect(c, present)
         files = [pool4.path(tuple(f)) for f in cands]
